@@ -65,6 +65,8 @@ bool prop(Tape &t, Report &R) {
       if (!c.fixed && c.polarity == 0 && !refIsTurn((CellOrientation)c.orient) && t.flip(1, 2)) c.orient = (int)CellOrientation::UNKNOWN, any = true;
     if (any) s.labels.insert("orientation:UNKNOWN-on-some-movable-cells");
   }
+  // a movable cell lower than a row (legalization must then fail, and fail cleanly); decided last
+  if (!usesGlobal) addShortMovable(s, t.next());
   for (auto &l : s.labels) R.classify(l);
 
   bool threwAny = false, movedAny = false;
